@@ -28,6 +28,7 @@ CloneViol(ev) ==
           \cup V(ev.sharedWithSource = 0, "SelfContained")
           \cup V(ev.cloneBones = ev.srcBones, "SameBoneNames")
           \cup V(ev.bonesExist, "BonesExistInDestination")
+          \cup V(ev.cloneParent = ev.wantParent, "CloneHangsBelowTheSourcesParentOrTheDestinationRoot")
           \cup V(ev.srcAfter = ev.srcBefore, "SourceUntouched")
           \cup V(ev.reloadHasClone, "DestinationReloadsWithClone") \cup V(ev.reloadSame, "ReloadedCloneIsTheClone")
           \cup V(ev.geomEqual, "IdenticalGeometry"))
